@@ -3,7 +3,7 @@
 set -e
 cd "$(dirname "$0")/harness"
 export GOFLAGS=-mod=mod GOPROXY=off GOSUMDB=off GOTOOLCHAIN=local
-cp /repo/go.sum go.sum.repo 2>/dev/null || true
+
 mkdir -p ../.build/bin
 go test -c -vet=off -o ../.build/bin/checks.test ./checks
 if [ -d backends ] && ls backends/*_test.go >/dev/null 2>&1; then
